@@ -388,7 +388,7 @@ def gen_rt(rnd):
 
 
 def harnesses(tier):
-    maxlen = 5 if tier == 'quick' else 7
+    maxlen = 5 if tier == 'quick' else 6
     return [
         Harness('coord_roundtrip', 'text', h_roundtrip, mode='INT', desc='for all int32 x: parse(format(x)) == x and fully consumed',
                 bounds='none on x (all 2^32 values, decided per control-flow path)',
